@@ -224,6 +224,15 @@ func allItems(t *btree.BTree) []kv {
 	return out
 }
 
+// fatalKind: structural damage after which traversing the structure may not terminate.
+func fatalKind(err error) bool {
+	switch errKind(err) {
+	case "ok", "err:underfull", "err:overfull", "err:length":
+		return false
+	}
+	return true
+}
+
 func errKind(err error) string {
 	if err == nil {
 		return "ok"
@@ -238,9 +247,9 @@ func errKind(err error) string {
 // reference (clone isolation both ways), structure and length of the written handle are right.
 func (w *world) afterWrite(h int, op string) {
 	for j, t := range w.trees {
-		if err := t.VerifCheck(); err != nil && errKind(err) == "err:cycle" {
+		if err := t.VerifCheck(); err != nil && fatalKind(err) {
 			w.dead = true
-			w.hit("btree:VerifCheck:cycle", fmt.Sprintf("after %s on handle %d, handle %d: %v", op, h, j, err))
+			w.hit("btree:VerifCheck:"+errKind(err)[4:], fmt.Sprintf("after %s on handle %d, handle %d: %v", op, h, j, err))
 			return
 		}
 	}
@@ -267,9 +276,9 @@ func (w *world) afterWrite(h int, op string) {
 
 func (w *world) afterWrapperWrite(op string, r *ref) {
 	in := w.w.VerifInner()
-	if err := in.VerifCheck(); err != nil && errKind(err) == "err:cycle" {
+	if err := in.VerifCheck(); err != nil && fatalKind(err) {
 		w.dead = true
-		w.hit("tree:VerifCheck:cycle", fmt.Sprintf("after %s: %v", op, err))
+		w.hit("tree:VerifCheck:"+errKind(err)[4:], fmt.Sprintf("after %s: %v", op, err))
 		return
 	}
 	got := allItems(in)
